@@ -46,7 +46,7 @@ def tree_hash(root=None):
     h = hashlib.sha256()
     for dp, dns, fns in os.walk(root):
         rel = os.path.relpath(dp, root)
-        dns[:] = sorted(d for d in dns if not (rel == '.' and d in ('target', '.git')))
+        dns[:] = sorted(d for d in dns if not (rel == '.' and d in ('target', '.git')) and d != 'test_snapshots')
         for fn in sorted(fns):
             p = os.path.join(dp, fn)
             if os.path.islink(p) or not os.path.isfile(p):
@@ -83,7 +83,7 @@ def _copy_tree(dst):
     if os.path.exists(dst):
         shutil.rmtree(dst)
     os.makedirs(dst)
-    r = subprocess.run(['rsync', '-a', '--delete', '--exclude', '/target', '--exclude', '/.git',
+    r = subprocess.run(['rsync', '-a', '--delete', '--exclude', '/target', '--exclude', '/.git', '--exclude', 'test_snapshots',
                         REPO.rstrip('/') + '/', dst + '/'],
                        stdout=subprocess.PIPE, stderr=subprocess.STDOUT, text=True)
     if r.returncode != 0:
